@@ -559,6 +559,13 @@ def _budget_checks(ctx, rep, rid, f, loop, cfg, head, within, helpers=None) -> N
         for n in cfg.nodes:
             if n.id in within and n.kind == "test" and isinstance(n.ast, ast.Compare) and limit_attr in norm(n.ast) and isinstance(n.ast.ops[0], (ast.Gt, ast.GtE)):
                 tests.append(n)
+        if not tests and f.cls is not None:
+            # the countdown form: a budget that starts at the limit, loses one per iteration and is compared with zero
+            countdowns = {norm(t) for m in f.cls.all_methods if not isinstance(m.node, ast.Lambda) for a in m.own_nodes() if isinstance(a, ast.Assign) and limit_attr in norm(a.value) for t in a.targets if isinstance(t, (ast.Attribute, ast.Name))}
+            stepped = {norm(a.target) for n in cfg.nodes if n.id in within and n.ast is not None for a in ast.walk(n.ast) if isinstance(a, ast.AugAssign) and isinstance(a.op, ast.Sub) and isinstance(a.value, ast.Constant) and a.value.value == 1}
+            for n in cfg.nodes:
+                if n.id in within and n.kind == "test" and isinstance(n.ast, ast.Compare) and isinstance(n.ast.ops[0], (ast.Lt, ast.LtE)) and norm(n.ast.left) in (countdowns & stepped) and isinstance(n.ast.comparators[0], ast.Constant) and n.ast.comparators[0].value == 0:
+                    tests.append(n)
         if not tests:
             # the budget may be enforced by the per-step helper (it must raise there: it cannot return for the loop)
             via = None
